@@ -34,6 +34,11 @@ class Ob:
     def smt2(self, extra_hyps=(), abstract=False):
         s = z3.Solver()
         fs = list(self.hyps) + list(extra_hyps) + [z3.Not(self.goal)]
+        pairs = self.meta.get('subst')
+        if pairs:
+            # a case of a case split: the case equalities (already among the hypotheses) are also substituted
+            pairs = [(t, v if z3.is_expr(v) else z3.BitVecVal(v, t.size())) for t, v in pairs if not z3.is_true(t) and not z3.is_false(t)]
+            fs = [z3.simplify(z3.substitute(f, *pairs)) for f in fs] + [t == v for t, v in pairs]
         if abstract:
             cache = {}
             fs2 = [abstract_mul(f, cache) for f in fs]
@@ -197,6 +202,7 @@ def _race(smt2, timeout_s, absmt2=None):
 
 
 def _worker(job):
+    """phase 1: z3 in process for a short slice (one thread per obligation)"""
     idx, smt2, timeout_ms, absmt2 = job
     try:
         first = min(timeout_ms, FIRST_SLICE_S * 1000)
@@ -206,12 +212,20 @@ def _worker(job):
                 info['backend'] += ' (nonlinear products abstracted by an uninterpreted function)'
                 return idx, r, info
         r, info = _solve_z3(smt2, first)
-        if r == 'unknown' and timeout_ms > first:
-            r2, info2 = _race(smt2, (timeout_ms - first) / 1000.0, absmt2)
-            info2['time'] = info2.get('time', 0) + info.get('time', 0)
-            return idx, r2, info2
         return idx, r, info
     except Exception as e:   # never a verdict
+        return idx, 'error', {'msg': repr(e)[:300]}
+
+
+def _worker2(job):
+    """phase 2: what phase 1 left open goes to the CLI portfolio (up to three solver processes per obligation, so only
+    cores/3 obligations are raced at a time: the wall-clock budgets stay meaningful on a busy machine)"""
+    idx, smt2, timeout_ms, absmt2, spent = job
+    try:
+        r2, info2 = _race(smt2, max(1.0, timeout_ms / 1000.0 - spent), absmt2)
+        info2['time'] = info2.get('time', 0) + spent
+        return idx, r2, info2
+    except Exception as e:
         return idx, 'error', {'msg': repr(e)[:300]}
 
 
@@ -227,6 +241,18 @@ def discharge(obs, timeout_s=30, procs=None, extra_hyps=(), use_cvc5=True):
     else:
         with mp.get_context('fork').Pool(min(procs, len(jobs))) as pool:
             outs = pool.map(_worker, jobs, chunksize=1)
+    left = [(idx, jobs[idx][1], jobs[idx][2], jobs[idx][3], info.get('time', 0)) for idx, r, info in outs
+            if r == 'unknown' and jobs[idx][2] > FIRST_SLICE_S * 1000]
+    if left:
+        per = 3 if any(j[3] for j in left) else 2        # solver processes per raced obligation
+        racers = max(1, min(len(left), (os.cpu_count() or 4) // per, procs))
+        if racers == 1:
+            outs2 = [_worker2(j) for j in left]
+        else:
+            with mp.get_context('fork').Pool(racers) as pool:
+                outs2 = pool.map(_worker2, left, chunksize=1)
+        byidx = {o[0]: o for o in outs2}
+        outs = [byidx.get(o[0], o) for o in outs]
     vm = {'unsat': 'discharged', 'sat': 'refuted', 'unknown': 'undecided', 'error': 'error'}
     for idx, r, info in outs:
         results[idx] = (obs[idx], vm[r], info)
